@@ -1,0 +1,163 @@
+//go:build verif
+
+// Read-only observation hooks for the model-based verification harness in
+// /verif. This file is compiled only with the build tag "verif"; it adds no
+// behaviour to the library and touches no existing declaration.
+
+package dig
+
+import (
+	"errors"
+	"reflect"
+	"time"
+	"unsafe"
+
+	"go.uber.org/dig/internal/digclock"
+	"go.uber.org/dig/internal/graph"
+)
+
+type verifGraph struct {
+	n     int
+	edges [][]int
+}
+
+func (g verifGraph) Order() int            { return g.n }
+func (g verifGraph) EdgesFrom(u int) []int { return g.edges[u] }
+
+// VerifIsAcyclic runs internal/graph.IsAcyclic on the digraph with n nodes and
+// the given adjacency lists (edges[u] in order, duplicates allowed).
+func VerifIsAcyclic(n int, edges [][]int) (bool, []int) {
+	return graph.IsAcyclic(verifGraph{n: n, edges: edges})
+}
+
+// VerifMockClock returns an Option installing a mock clock and the function
+// that advances it.
+func VerifMockClock() (Option, func(time.Duration)) {
+	m := digclock.NewMock()
+	return setClock(m), m.Add
+}
+
+// VerifKey is the exported form of a container key.
+type VerifKey struct {
+	Type  reflect.Type
+	Name  string
+	Group string
+}
+
+func verifKey(k key) VerifKey { return VerifKey{Type: k.t, Name: k.name, Group: k.group} }
+
+// VerifNode describes one constructor node.
+type VerifNode struct {
+	ID      uintptr // identity of the node (opaque)
+	Called  bool
+	OnStack bool
+	Ctor    interface{}
+}
+
+// VerifDecorator describes one decorator node.
+type VerifDecorator struct {
+	ID    uintptr
+	State int // 0 ready, 1 on stack, 2 called
+	Dcor  interface{}
+}
+
+// VerifScopeState is the projected state of one scope.
+type VerifScopeState struct {
+	Scope           *Scope
+	Name            string
+	Parent          *Scope
+	Nodes           []VerifNode                // accepted constructors, registration order
+	Providers       map[VerifKey][]uintptr     // node ids per key (empty lists omitted)
+	Decorators      map[VerifKey]VerifDecorator
+	Values          map[VerifKey]reflect.Value
+	DecoratedValues map[VerifKey]reflect.Value
+	Groups          map[VerifKey][]reflect.Value
+	DecoratedGroups map[VerifKey]reflect.Value // keyed by the slice type
+	GraphOrder      int
+	Verified        bool
+}
+
+func verifNode(n *constructorNode) VerifNode {
+	return VerifNode{ID: uintptr(unsafe.Pointer(n)), Called: n.called, OnStack: n.onStack, Ctor: n.ctor}
+}
+
+// VerifSnapshot returns the state of every scope of the container in
+// pre-order of the scope tree.
+func VerifSnapshot(c *Container) []VerifScopeState {
+	var out []VerifScopeState
+	for _, s := range c.scope.appendSubscopes(nil) {
+		st := VerifScopeState{
+			Scope:           s,
+			Name:            s.name,
+			Parent:          s.parentScope,
+			Providers:       make(map[VerifKey][]uintptr),
+			Decorators:      make(map[VerifKey]VerifDecorator),
+			Values:          make(map[VerifKey]reflect.Value),
+			DecoratedValues: make(map[VerifKey]reflect.Value),
+			Groups:          make(map[VerifKey][]reflect.Value),
+			DecoratedGroups: make(map[VerifKey]reflect.Value),
+			GraphOrder:      s.gh.Order(),
+			Verified:        s.isVerifiedAcyclic,
+		}
+		for _, n := range s.nodes {
+			st.Nodes = append(st.Nodes, verifNode(n))
+		}
+		for k, ns := range s.providers {
+			if len(ns) == 0 {
+				continue
+			}
+			ids := make([]uintptr, len(ns))
+			for i, n := range ns {
+				ids[i] = uintptr(unsafe.Pointer(n))
+			}
+			st.Providers[verifKey(k)] = ids
+		}
+		for k, d := range s.decorators {
+			st.Decorators[verifKey(k)] = VerifDecorator{ID: uintptr(unsafe.Pointer(d)), State: int(d.state), Dcor: d.dcor}
+		}
+		for k, v := range s.values {
+			st.Values[verifKey(k)] = v
+		}
+		for k, v := range s.decoratedValues {
+			st.DecoratedValues[verifKey(k)] = v
+		}
+		for k, vs := range s.groups {
+			st.Groups[verifKey(k)] = append([]reflect.Value(nil), vs...)
+		}
+		for k, v := range s.decoratedGroups {
+			st.DecoratedGroups[verifKey(k)] = v
+		}
+		out = append(out, st)
+	}
+	return out
+}
+
+// VerifMissingKeys returns the keys listed by the missing-types errors in the
+// chain of err, and whether the chain contains a missing-dependencies error.
+func VerifMissingKeys(err error) (keys []VerifKey, missingDeps bool) {
+	for e := err; e != nil; e = errors.Unwrap(e) {
+		switch x := e.(type) {
+		case errMissingTypes:
+			for _, mt := range x {
+				keys = append(keys, verifKey(mt.Key))
+			}
+		case errMissingDependencies:
+			missingDeps = true
+		}
+	}
+	return keys, missingDeps
+}
+
+// VerifCyclePath returns the constructor types on the path of the cycle error
+// in the chain of err, if any.
+func VerifCyclePath(err error) ([]reflect.Type, bool) {
+	var ce errCycleDetected
+	if !errors.As(err, &ce) {
+		return nil, false
+	}
+	var ts []reflect.Type
+	for _, e := range ce.Path {
+		ts = append(ts, e.Key.t)
+	}
+	return ts, true
+}
